@@ -161,6 +161,7 @@ func c02Child(ctx *runCtx, spec string) {
 	}
 	sess := router.NewSession()
 	defer sess.Close()
+	fpHealthy := c.Fingerprint()
 	// ---- phase 1: acknowledged writes on a healthy cluster, through all members and paths
 	kinds := []string{"EO", "EN", "CC", "RO", "RN"}
 	for round := 0; round < 3; round++ {
@@ -180,6 +181,11 @@ func c02Child(ctx *runCtx, spec string) {
 			return sess.ViaMember("E", m)
 		}
 		return sess.ViaMember("R", m)
+	}
+
+	if c.Fingerprint() != fpHealthy {
+		ctx.rep.Inconclusive(spec + ": membership/routing changed while the pre-fault writes ran (false failure suspicion): the cluster was not healthy")
+		return
 	}
 
 	stopAll := func() {
@@ -370,6 +376,15 @@ func c02Child(ctx *runCtx, spec string) {
 		}
 		return ok
 	}
+	fpAfter := c.Fingerprint()
+	defer func() {
+		// a membership change after re-stabilisation (other than the injected fault) invalidates the verdicts
+		if c.Fingerprint() != fpAfter {
+			if n := ctx.rep.DropViolations(); n > 0 {
+				ctx.rep.Inconclusive(fmt.Sprintf("%s: membership changed again after re-stabilisation; %d violation(s) dropped", spec, n))
+			}
+		}
+	}()
 	if !verify("after-stabilisation") {
 		return
 	}
@@ -381,6 +396,7 @@ func c02Child(ctx *runCtx, spec string) {
 			c.PushRouting()
 		}
 		_ = c.WaitStable(30 * time.Second)
+		fpAfter = c.Fingerprint()
 		if !verify("after-balancing") {
 			return
 		}
